@@ -112,3 +112,19 @@ Proof.
   split; [apply map2_length_eq; exact Hl|].
   intros e He. apply in_map2 in He as [x [t [_ [_ ->]]]]. unfold C04.Spec.spec_ig_one. rewrite map_length, seq_length. reflexivity.
 Qed.
+
+(* SmoothGrad / SquareGrad / VarGrad: one explanation per input, of the documented size *)
+Theorem gradstat_shape (grad : list Qc -> list Qc -> list Qc) k r st bs nb xs ts noises :
+  C01.Spec.shape_preserving grad -> C01.Spec.kind_ok k -> C06.Proofs.bs_ok bs -> 1 <= nb ->
+  (st = C01.Model.SVar -> 2 <= nb) -> C01.Spec.noises_ok nb (C01.Proofs.rows xs ts noises) ->
+  length xs = length ts -> length xs = length noises ->
+  (forall x, In x xs -> length x = C01.Model.kind_size k) ->
+  length (C01.Model.gradstat grad k r st bs nb xs ts noises) = length xs /\
+  forall e, In e (C01.Model.gradstat grad k r st bs nb xs ts noises) -> length e = out_size k r.
+Proof.
+  intros Hg Hk Hb Hnb Hv Hok Hl Hl' Hx. rewrite C01.Proofs.gradstat_correct by assumption. split.
+  - rewrite map_length. unfold C01.Proofs.rows, C01.Model.row. rewrite combine_length, combine_length. lia.
+  - intros e He. apply in_map_iff in He as [[[x t] es] [<- Hr]]. apply spec_reduce_length; [exact Hk|].
+    rewrite C01.Proofs.spec_stat_length. cbn. apply Hx.
+    unfold C01.Proofs.rows in Hr. apply in_combine_l in Hr. apply in_combine_l in Hr. exact Hr.
+Qed.
